@@ -1,7 +1,8 @@
 (* C05 - The mnemonic is a lossless encoding of the entropy. *)
 From B39 Require Import Proofs.Calls.
 From B39 Require Import Lib.Base Lib.Sha256 Lib.Utf8 Lib.TableWF Model.GenTypes Model.Model Spec.Bip39Spec.
-From B39 Require Import Proofs.Tables Proofs.Encode Proofs.Unicode Proofs.Roundtrip.
+From B39 Require Import Proofs.Gates Proofs.Tables Proofs.Encode Proofs.Unicode Proofs.Roundtrip Proofs.Reader Proofs.Api.
+From Coq Require Import Lia.
 
 Lemma sep_is_sep name : exists c, is_sep (separator name) c /\ is_space_cp c = true.
 Proof.
@@ -33,6 +34,27 @@ Proof.
   rewrite M1, M2 in E. injection E as E. subst m2. rewrite D1 in D2. injection D2 as D2. exact D2.
 Qed.
 
+(* the same through the random path: two sources whose first 4n/3 delivered bytes differ never produce the same
+   mnemonic - NewMnemonic ignores no delivered bit either, whatever the fragmentation *)
+Theorem C05_new_injective : forall (n : Z) (name : string) (l : Z) (s1 s2 : script),
+  valid_wc_z n -> supported name l ->
+  let need := Z.to_nat (n + n / 3) in
+  (need <= length (delivered s1))%nat -> (need <= length (delivered s2))%nat ->
+  fst (NewMnemonic n l s1) = fst (NewMnemonic n l s2) ->
+  firstn need (delivered s1) = firstn need (delivered s2).
+Proof.
+  intros n name l s1 s2 Hn Hs need L1 L2 E.
+  pose proof (new_mnemonic_delivers n name l s1 Hn Hs) as D1. pose proof (new_mnemonic_delivers n name l s2 Hn Hs) as D2.
+  cbn zeta in D1, D2. fold need in D1, D2.
+  rewrite (proj2 (Nat.leb_le _ _) L1) in D1. rewrite (proj2 (Nat.leb_le _ _) L2) in D2.
+  destruct D1 as [D1 _]. destruct D2 as [D2 _]. rewrite D1, D2 in E.
+  assert (V : forall s, (need <= length (delivered s))%nat -> valid_ent (length (firstn need (delivered s)))).
+  { intros s L. rewrite firstn_length, Nat.min_l by exact L. unfold need, valid_wc_z, valid_ent in *.
+    destruct Hn as [H|[H|[H|[H|H]]]]; rewrite H; cbn; auto 6. }
+  apply (C05_injective _ _ name l (V s1 L1) (V s2 L2) Hs).
+  rewrite (encode_conforms _ name l (V s1 L1) Hs), (encode_conforms _ name l (V s2 L2) Hs). exact E.
+Qed.
+
 (* the functions this property is about, and every package function they reach, call only what the model
    accounts for (closed world of callees, computed on coq/Gen/Calls.v, regenerated from the source every run) *)
 Theorem C05_callees : reach_ok "NewMnemonicByEntropy" = true /\ reach_ok "NewMnemonic" = true /\ reach_ok "fromEntropy" = true.
@@ -40,3 +62,4 @@ Proof. exact calls_generator. Qed.
 
 Print Assumptions C05_decode.
 Print Assumptions C05_injective.
+Print Assumptions C05_new_injective.
